@@ -56,6 +56,11 @@ def rich_family():
         comp = {"x": "A", "dx_dt": "A", "a1": "A", "y": "B", "dy_dt": "B", "b1": "B", "z": "C", "dz_dt": "C", "c1": "C", "k": "A", "p": "A"}
         comp.update(shared)
         out.append((f"rich|shared|{sn}", models.spec(sh_states, sh_params, sh_assigns, comp=comp)))
+    # two components without states (global parameters in the unnamed component, a stimulus component) next to two stateful ones
+    st_assigns = [("i_stim", L.bin_("*", v("amp"), L.bin_("+", n("1"), v("t")))), ("i_x", L.bin_("*", v("g"), L.bin_("-", v("x"), v("c")))),
+                  ("dx_dt", L.bin_("-", v("i_stim"), v("i_x"))), ("dy_dt", L.bin_("-", L.bin_("*", v("c"), v("x")), v("y")))]
+    st_comp = {"g": "", "c": "", "amp": "stimulus", "i_stim": "stimulus", "x": "A", "i_x": "A", "dx_dt": "A", "y": "B", "dy_dt": "B"}
+    out.append(("rich|stateless|two", models.spec([("x", n("1.0")), ("y", n("2.0"))], [("g", n("2.0")), ("c", n("0.5")), ("amp", n("1.5"))], st_assigns, comp=st_comp)))
     # names chosen so that alphabetical order is against the dependency order
     ren = {"a1": "zz1", "a2": "yy2", "a3": "xx3", "b1": "ww1", "b2": "vv2"}
 
@@ -151,6 +156,13 @@ def run_item(item):
             sa, sb = [s.name for s in A.states], [s.name for s in B.states]
             if sorted(sa + sb) != sorted(ref.states):
                 fail("states-not-partitioned", f"states of the parts {sa} + {sb} != states of the model {ref.states}")
+                ok = False
+            defined = set()
+            for sub_ in (A, B):
+                defined |= {a_.name for a_ in sub_.states + sub_.parameters + sub_.intermediates + sub_.state_derivatives}
+            lost = sorted(set(all_names) - defined)
+            if lost:
+                fail("names-defined-in-neither-part", f"the two parts together do not define {lost}")
                 ok = False
             if not ok:
                 continue
